@@ -102,12 +102,18 @@ def oracle_fs(sc, res, which):
     reclaimed_release = set()
     for k, st in enumerate(res["steps"]):
         o = st["obs"]
-        if st["res"].startswith("raised") and st["op"][0] == "deliver":
+        if st["res"].startswith("raised") and st["op"][0] in ("deliver", "deliverrace"):
             dead_obs = True
             if which == "C09":
-                out.append(("C09:observer-dies:unparsable-token-file",
-                            "a filesystem event handler raised %s on a token file that is created but not written "
-                            "yet: the watchdog observer thread of that process ends" % st["res"][7:], k))
+                empty_seen = k > 0 and any(c < 0 for _, c in res["steps"][k - 1]["obs"]["disk"])
+                if st["res"] == "raised:ValueError" and empty_seen and st["op"][0] == "deliver":
+                    out.append(("C09:observer-dies:unparsable-token-file",
+                                "a filesystem event handler raised %s on a token file that is created but not written "
+                                "yet: the watchdog observer thread of that process ends" % st["res"][7:], k))
+                else:
+                    out.append(("C09:observer-dies:handler-raises",
+                                "a filesystem event handler raised %s (step %s): the watchdog observer thread of that "
+                                "process ends, it never sees another release" % (st["res"][7:], st["op"]), k))
         elif st["res"].startswith("raised:ValueError") and st["op"][0] in ("start", "startrace", "acquire", "release") \
                 and k > 0 and any(c < 0 for _, c in res["steps"][k - 1]["obs"]["disk"]):
             if which == "C09":
@@ -266,6 +272,10 @@ def g_label(op):
         return "FireDelete %s %s" % (gnat(op[1]), gnat(op[2]))
     if k == "resubmit":
         return "Resubmit %s %s" % (gnat(op[1]), gnat(op[2]))
+    if k == "startmid":
+        return "StartMid %s %s %s" % (gnat(op[1]), gnat(op[2]), gnat(op[3]))
+    if k == "deliverrace":
+        return "DeliverRace %s %s %s %s" % (gnat(op[1]), gnat(op[2]), gbool(op[3]), gnat(op[4]))
     if k == "release":
         return "Release %s %s" % (gnat(op[1]), gnat(op[2]))
     if k == "deliver":
@@ -347,6 +357,14 @@ W6 = dict(kind="fs", total=1, nprocs=2, jobs=[dict(p=0, c=1), dict(p=1, c=1)],
                  ["write", 1], ["launch", 1]])
 
 
+# three actors: the watcher of process 0 finishes while process 0 is inside an acquire; if that makes process 0
+# lose token.lock, process 2 can acquire before process 0 has written its file (with exclusive locks the
+# schedule stops being enabled at `acquire 2 2` and only its prefix is checked)
+W7 = dict(kind="fs", total=2, nprocs=3, jobs=[dict(p=1, c=1), dict(p=0, c=1), dict(p=2, c=2)],
+          steps=[["start", 1], ["acquire", 1, 0], ["write", 0], ["launch", 0], ["start", 0], ["start", 2], ["end", 0, 0],
+                 ["acquire", 0, 1], ["fire", 0, 0], ["acquire", 2, 2], ["write", 1], ["write", 2], ["launch", 1], ["launch", 2]])
+
+
 def detect_variant(driver, scratch):
     """(parse_fix, count_fix, notify_fix, startup_recount_fix, half_created_fix, watcher_fix) of the tree under test; a probe that cannot be run as scripted
     (the tree behaves differently for another reason) is inconclusive and counts as repaired: the
@@ -418,6 +436,54 @@ def shrink_fs(driver, sc, key, which, scratch, rounds=12):
     cur = dict(cur)
     cur.pop("scratch", None)
     return cur
+
+
+# --------------------------------------------------------------------------- directed probes
+def probe_findings(c, which, driver):
+    """Directed situations (tokctl.run_probe): API-level inputs and races the schedules do not generate."""
+    r = run_impl(driver, dict(scenarios=[dict(kind="probe", scratch=str(c.scratch()))], timeout=60), timeout=120)[0]
+    c.extra["probes"] = r
+    c.evaluations += len(r) if isinstance(r, dict) else 0
+    if not isinstance(r, dict) or r.get("error"):
+        raise InternalError("probe scenario failed: %s" % (r,))
+    sc = dict(kind="probe")
+    if which == "C08":
+        t = r.get("two_requests", {})
+        if "files" in t and sum(int(float(x)) for _, x in t["files"]) != t["held"]:
+            c.violation("C08:token-file-named-after-job-identifier-alone",
+                        "one job with two requests (2 and 1) on the same file token holds 3, the directory records %s: after "
+                        "the next recount the token shows %d available of %d" % (t["files"], t["available_after_recount"], t["total"]),
+                        dict(scenario=sc, probe="two_requests", observed=t))
+        t = r.get("same_identifier", {})
+        if "files" in t and len(t["files"]) < 2:
+            c.violation("C08:token-file-named-after-job-identifier-alone",
+                        "two jobs with the same identifier (two workspaces sharing the token) hold 1 + 1, the directory has "
+                        "one file %s; the release of the first removes it: %s" % (t["files"], t["files_after_first_release"]),
+                        dict(scenario=sc, probe="same_identifier", observed=t))
+        for name in ("float_request", "negative_request"):
+            t = r.get(name, {})
+            if "files" in t and t.get("rejected") is None and \
+                    (not t["files_after_other_process_recount"] or t["available_in_other"] > t["total"]):
+                c.violation("C08:request-not-a-non-negative-integer",
+                            "a token request of %s is accepted: file %s, after the recount of another process the files are %s "
+                            "and it sees %s available of %d" % (t["count"], t["files"], t["files_after_other_process_recount"],
+                                                                t["available_in_other"], t["total"]),
+                            dict(scenario=sc, probe=name, observed=t))
+    else:
+        t = r.get("token_info_truncated", {})
+        if t.get("handler_raised"):
+            c.violation("C09:observer-dies:unreadable-token-info",
+                        "on_modified(token.info) raised %s while token.info was being rewritten by another process's "
+                        "__init__ (truncate, then write): the observer thread ends" % t["handler_raised"],
+                        dict(scenario=sc, probe="token_info_truncated", observed=t))
+        t = r.get("process_handlers", {})
+        if t.get("concurrent_caller_gets_handler") is False:
+            c.violation("C09:watcher-dies:process-handlers-half-loaded",
+                        "Process.handler('local') called while another thread is loading the handlers returns None: the "
+                        "TokenFile.watch thread dies on its assertion, its token file is never reclaimed by this process",
+                        dict(scenario=sc, probe="process_handlers", observed=t))
+    for k, v in (r.items() if isinstance(r, dict) else []):
+        c.count("probe:" + k)
 
 
 # --------------------------------------------------------------------------- the check
@@ -536,6 +602,9 @@ def run_check(c, which):
         c.obligations.append(dict(name="tie:tree-behaves-like-the-repaired-model", kind="tie", ok=not silent,
                                   detail="" if not silent else "the tree lacks the repairs %s and no failing input "
                                   "was produced for them" % (silent,)))
+
+    if not c.replay or json.load(open(c.replay))["replay"].get("scenario", {}).get("kind") == "probe":
+        probe_findings(c, which, driver)
 
     # ---- correspondence inside Coq
     cases = list(zip(fs_cases, res_fs))
